@@ -423,6 +423,8 @@ func TestC13(t *testing.T) {
 		`{"jsonrpc":"2.0","id":1,"method":"ok","params":[ 1,
  2 ]}`, `[{"jsonrpc":"2.0","id":"a\"b","method":"fail"},{"jsonrpc":"2.0","id":2,"method":"nope"},{"jsonrpc":"2.0","id":3.50,"method":"ok","params":{"k":"é😀"}}]`,
 		`{"jsonrpc":"2.0","id":1e2,"method":"ok","bogus":true}`, `[{"jsonrpc":"1.0","id":9,"method":"ok"},{"jsonrpc":"2.0","method":"ok"}]`, `{"jsonrpc":"2.0","id":"x","method":""}`,
+		`[{"jsonrpc":"2.0","id":10,"method":"ok","params":[10]},{"jsonrpc":"1.0","id":20,"method":"ok","params":[20]},{"jsonrpc":"2.0","id":"thirty","method":"ok","params":["thirty"]},{"jsonrpc":"2.0","method":"ok"}]`,
+		`[{"jsonrpc":"2.0","id":1,"method":"ok","params":[1],"zz":0},{"jsonrpc":"2.0","id":2,"method":"ok","params":[2]},{"jsonrpc":"2.0","id":3,"method":"nope"},{"jsonrpc":"2.0","id":4,"method":"ok","params":[4]}]`,
 	}
 	for _, b := range bodies {
 		req := httptest.NewRequest("POST", "http://x/", strings.NewReader(b))
@@ -437,6 +439,38 @@ func TestC13(t *testing.T) {
 		record("bridge-reply", body, "")
 		if _, err := parseReply([][]byte{body}); err != nil {
 			res.Violatef("bridge reply is not a valid JSON-RPC response", b, "%q: %v", body, err)
+		}
+		// every inbound member with an id is answered under exactly that id; an "ok" result is the
+		// member's own params (here: [id]), so a reply stamped with another member's id shows
+		type ent struct {
+			ID     json.RawMessage `json:"id"`
+			Params json.RawMessage `json:"params"`
+			Result json.RawMessage `json:"result"`
+		}
+		parse := func(raw []byte) []ent {
+			var many []ent
+			if json.Unmarshal(raw, &many) != nil {
+				var one ent
+				json.Unmarshal(raw, &one)
+				many = []ent{one}
+			}
+			return many
+		}
+		want := map[string]int{}
+		for _, m := range parse([]byte(b)) {
+			if len(m.ID) != 0 && string(m.ID) != "null" {
+				want[string(m.ID)]++
+			}
+		}
+		got := map[string]int{}
+		for _, m := range parse(body) {
+			got[string(m.ID)]++
+			if len(m.Result) != 0 && strings.HasPrefix(string(m.Result), "[") && !jsonEqual(m.Result, []byte("["+string(m.ID)+"]")) && strings.Contains(b, `"params":[`+string(m.ID)+`]`) {
+				res.Violatef("bridge reply carries another member's id", b, "reply %s", body)
+			}
+		}
+		if fmt.Sprint(want) != fmt.Sprint(got) {
+			res.Violatef("bridge reply ids differ from the request ids", b, "want %v got %v: %s", want, got, body)
 		}
 	}
 
